@@ -715,9 +715,51 @@ static std::string refScalar(char kind, const std::string& text, bool sg, int bi
     }
   }
 }
-// sequence reference: tokens, each a scalar; count = n (n<0: any)
+// length of the longest numeric literal at the start of t (0 = none):  [+-]?digits   or
+// [+-]?(digits[.digits*]|.digits)([eE][+-]?digits)?
+static size_t literalLen(const std::string& t, size_t i0, bool flt) {
+  size_t i = i0, n = t.size();
+  if (i < n && (t[i] == '+' || t[i] == '-')) ++i;
+  size_t d0 = i;
+  while (i < n && std::isdigit((unsigned char)t[i])) ++i;
+  size_t nd = i - d0;
+  if (!flt) return nd ? i - i0 : 0;
+  if (i < n && t[i] == '.') {
+    size_t save = i;
+    ++i;
+    size_t f0 = i;
+    while (i < n && std::isdigit((unsigned char)t[i])) ++i;
+    nd += i - f0;
+    if (nd == 0) i = save;
+  }
+  if (nd == 0) return 0;
+  if (i < n && (t[i] == 'e' || t[i] == 'E')) {
+    size_t j = i + 1;
+    if (j < n && (t[j] == '+' || t[j] == '-')) ++j;
+    size_t e0 = j;
+    while (j < n && std::isdigit((unsigned char)t[j])) ++j;
+    if (j == e0) return 0;   // operator>> consumes the marker and then fails: no item here
+    i = j;
+  }
+  return i - i0;
+}
+// sequence reference: tokens, each a scalar; count = n (n<0: any).  For fixed-size numeric ranges the items are read
+// from one stream, so adjacent literals need no blank between them ("1-2" is 1 and -2): items = maximal literals
 static std::string refSeq(char kind, const std::string& text, bool sg, int bits, long n, bool duneSplit) {
-  auto toks = tokensBy(text, duneSplit ? isWsCh : isSpaceC);
+  auto toks0 = tokensBy(text, duneSplit ? isWsCh : isSpaceC);
+  std::vector<std::string> toks;
+  if (!duneSplit && (kind == 'i' || kind == 'd')) {
+    for (auto& t : toks0) {
+      size_t i = 0;
+      while (i < t.size()) {
+        size_t l = literalLen(t, i, kind == 'd');
+        if (l == 0) return "ERR:Range";
+        toks.push_back(t.substr(i, l));
+        i += l;
+        if ((long)toks.size() > n) return "ERR:Range";
+      }
+    }
+  } else toks = toks0;
   if (n >= 0 && (long)toks.size() != n) return "ERR:Range";
   std::string o = "[";
   bool unknown = false;
@@ -1247,7 +1289,8 @@ static std::string genScalarText(Rng& r, char kind, int bits, bool sg) {
   else if (kind == 'd') t = genDblText(r);
   else if (kind == 'b') {
     static const std::vector<std::string> b = {"yes", "no", "true", "false", "YES", "No", "TRUE", "fAlSe", "1", "0", "2", "-1", "10", "y", "n",
-                                               "on", "off", "", "yess", "tru", "0x1", "1.0", "00", "+0", "yes ", " no"};
+                                               "on", "off", "", "yess", "tru", "0x1", "1.0", "00", "+0", "yes ", " no", "-1", "-2", "-17",
+                                               "+3", "-0", " 1", "1 ", "-2147483648", "2147483648"};
     t = r.pick(b);
     return t;
   } else {
@@ -1300,10 +1343,11 @@ static std::string genGet(Rng& r, const Args&) {
       else if (r.coin(1, 12)) t = genScalarText(r, kind, bits, sg);
       else if (kind == 'i') t = genIntText(r, bits, sg);
       else if (kind == 'd') t = genDblText(r);
-      else { static const std::vector<std::string> b = {"yes", "no", "true", "false", "1", "0", "TRUE", "No", "2", "x"}; t = r.pick(b); }
+      else { static const std::vector<std::string> b = {"yes", "no", "true", "false", "1", "0", "TRUE", "No", "2", "x", "-1", "-3"}; t = r.pick(b); }
       text += (i ? r.pick(seps) : "") + t;
     }
     if (r.coin(1, 4)) text += padC(r);
+    if (r.coin(1, 12) && kind != 's' && kind != 'b') { static const std::vector<std::string> glue = {"1-2", "1+2", "3-4-5", "1.5.5", "1..5", "1e5.5", "+1+1", "7-", "1e", "-+1"}; text += (text.empty() ? "" : " ") + r.pick(glue); }
     if (r.coin(1, 8)) { static const std::vector<std::string> tails = {" -", " +", " .", " 1e", " x", "-", "+", " 99999999999999999999", " e", ","}; text += r.pick(tails); }
   }
   return "get " + ty + " " + hx(text);
